@@ -236,7 +236,7 @@ func registry() map[string]PropSpec {
 			{Pkg: "jwkutil", Name: "c18_validate", Quick: map[string]int{"alglen": 8}, Unwind: [2]int{24, 24},
 				What: "jwkutil.Validate on an abstract key: symbolic structural validity, algorithm present/absent, algorithm of kind signature / key-encryption / invalid with a symbolic name of <= 8 bytes, symbolic key type of <= 3 bytes: accepted exactly for valid keys with RSA+PS512, EC+ES512 or OKP+EdDSA"},
 			{Pkg: "jwkutil", Name: "c18_loadkey", Quick: map[string]int{"keys": 2}, Thorough: map[string]int{"keys": 3}, Unwind: [2]int{24, 24},
-				What: "LoadKey (file reading and jwk.Parse stubbed to return the abstract set) on key sets of <= keys keys with symbolic ids and a symbolic requested id: requested or only key, refusal of ambiguous, absent and invalid keys"},
+				What: "LoadKey (file reading and jwk.Parse stubbed to return the abstract set) on key sets of <= keys keys with symbolic ids (0-1 bytes over a, b and space) and a symbolic requested id (0-2 bytes; ids are compared exactly, blanks and padding included): requested or only key, refusal of ambiguous, absent and invalid keys"},
 			{Pkg: "jwkutil", Name: "c18_reload", Quick: map[string]int{"loads": 2}, Thorough: map[string]int{"loads": 3}, Unwind: [2]int{24, 24},
 				What: "histories of `loads` LoadKey calls in one process (package-level state symbolically carried from call to call; sync.Map modelled as an association list, RFC 7638 thumbprints as an injective function of key type and material): each file holds one key of type OKP/EC/RSA whose material is either that of an earlier key or fresh, with its own algorithm declaration (approved, other signature algorithms, symmetric, or none), key id and requested id, optionally preceded by a NewKeyPair request for an algorithm the library does not generate (whatever it answers, it must have no effect on later loads; slice capacity and aliasing of package-level tables are modelled); every load is accepted exactly when that key alone would be"},
 		},
@@ -266,6 +266,9 @@ func registry() map[string]PropSpec {
 			{Pkg: ".", Name: "c19_obs_step", Quick: map[string]int{}, Unwind: [2]int{64, 64},
 				Models: []string{"net/url.Parse=vpModelURLParse", "path.Join=vpModelPathJoin"},
 				What:   "CommandStep.MarshalJSON does not modify the step nor materialise absent fields"},
+			{Pkg: ".", Name: "c19_obs_extras", Quick: map[string]int{}, Unwind: [2]int{128, 128}, FixedMapOrder: true,
+				Models: []string{"net/url.Parse=vpModelURLParse", "path.Join=vpModelPathJoin"},
+				What:   "json.Marshal of a command step, group step, matrix, cache and pipeline that carry n unknown fields, n next to each integer constant of the marshalling code (current SSA) and 12: the unknown-field map keeps exactly its entries, named fields are untouched, a second marshal gives the same JSON and YAML marshalling still succeeds"},
 			{Pkg: ".", Name: "c19_warnings", Quick: map[string]int{}, Unwind: [2]int{128, 128}, FixedMapOrder: true,
 				Models: []string{"net/url.Parse=vpModelURLParse", "path.Join=vpModelPathJoin"},
 				What:   "two parses in one process that each fall back on some steps (kind not inferable, unknown type, unknown scalar, malformed field; 1-2 and 1 steps): the two warnings, and the two pipelines, share no mutable heap object, and the later parse neither changes the earlier warning nor reports anything but its own fallbacks"},
